@@ -6,7 +6,9 @@ import (
 	"fmt"
 	"os"
 	"os/exec"
+	"strconv"
 	"strings"
+	"time"
 
 	"verif/mc/drv"
 	"verif/mc/engine"
@@ -20,6 +22,30 @@ type SubResult struct {
 	Violations []drv.Violation `json:"violations"`
 	Digests    []string        `json:"digests,omitempty"`
 	Points     int             `json:"points,omitempty"`
+	Truncated  bool            `json:"truncated,omitempty"` // the sub mode stopped at the wall-clock deadline
+}
+
+// SubDeadline is the wall-clock deadline of sub modes (env VERIF_DEADLINE, unix seconds; 0: none).
+var SubDeadline = func() int64 {
+	v, _ := strconv.ParseInt(os.Getenv("VERIF_DEADLINE"), 10, 64)
+	return v
+}()
+
+// pastDeadline reports whether a sub mode should stop.
+func pastDeadline() bool { return SubDeadline != 0 && time.Now().Unix() > SubDeadline }
+
+// SetSubDeadline sets the deadline handed to sub processes (called by the CLI).
+func SetSubDeadline(t time.Time) { os.Setenv("VERIF_DEADLINE", strconv.FormatInt(t.Unix(), 10)) }
+
+// noteTruncated marks the report as not exhaustive if any sub result was cut short.
+func noteTruncated(rep *engine.Report, what string, rs ...*SubResult) {
+	for _, r := range rs {
+		if r != nil && r.Truncated {
+			rep.Exhaustive = false
+			rep.PerConfig = append(rep.PerConfig, what+": sub mode stopped at the wall-clock deadline (partial)")
+			return
+		}
+	}
 }
 
 // SubModes maps property id -> body executed inside a differently tagged build.
